@@ -89,6 +89,14 @@ def closure_result_delivery(F, body, depth=0):
         return True, "closure-result→" + m, ""
     if m in ITER_DROPPERS:
         return False, m, "the closure's Result/Option is handed to the iterator adapter `%s`, which discards failures: the error is silently dropped" % m
+    if m in ("try_for_each", "try_fold", "try_for_each_with", "try_for_each_init"):
+        # the driver stops at the first failure and returns it: that result must go on to `?`, a match or the caller
+        d = c["term"]["dest"]
+        nxt = [] if d["proj"] else consumers(parent, d["l"])
+        if any(x["kind"] in ("discr", "return", "switch") or (x["kind"] == "call" and x["cid"].rsplit("::", 1)[-1] in ("branch", "map_err", "map", "and_then", "or_else", "ok", "is_err", "is_ok"))
+               for x in nxt):
+            return True, m, ""
+        return False, m, "the Result of `%s` (the first failure of the closure) is not looked at" % m
     if m not in ("map", "map_with", "map_init"):
         return False, m, "the closure's Result/Option is handed to the iterator adapter `%s` (unmodelled, undetermined)" % m
     # follow the mapped iterator to its terminal
